@@ -11,11 +11,18 @@ binding R: the dumped state graph (all paths of a short depth + an edge cover of
   every action the observed raw sends, send_data calls, queue and circuits table are compared with the TLC state.
 binding T: seeded random histories (length 200, 3 overlays, up to 3 hops, real create_circuit) are recorded from the
   same objects and validated by TLC against the abstract layer only (specs/TunnelEndpointTrace.tla).
+life cycle: overlay INSTANCES come and go on the shared endpoint (spec: insts / asked, actions Load / Unload, sends by
+  instance - loaded, replaced or already unloaded).  Who asked for anonymity is bookkept by the abstract layer from the
+  calls alone (Community(anonymize=..), explicit set_anonymity, unload = no request), never read from the endpoint's
+  switch.  R: every path of 3 events with a life-cycle event followed by a send (TunnelEndpoint_lc3.cfg), the simulated
+  deep behaviours load/unload as well; exhaustive TLC run TunnelEndpoint_lc5.cfg; T: the random histories construct
+  further real Community instances and run the real Community.unload().
 A replay that leaves the implementation layer is handed to the abstract layer as well: only what the abstract layer
 rejects is a violation; a mere difference in behaviour the statement leaves open is reported as a note.
 """
 from __future__ import annotations
 
+import asyncio
 import concurrent.futures
 import json
 import os
@@ -33,7 +40,10 @@ PID = "C07"
 QCAP = 100
 LABELS = ("A", "B", "C")
 SITUATIONS = ["plain", "anon_detached", "anon_ready_circuit", "anon_ready_circuit_after_backlog", "anon_no_circuit",
-              "anon_no_circuit_backlog_over_capacity"]
+              "anon_no_circuit_backlog_over_capacity", "open_shared_prefix", "anon_sender_unloaded", "anon_sibling_unloaded",
+              "anon_replacement_of_unloaded"]
+LIFECYCLE = ("Load", "Unload")
+MAX_INSTANCES = 7            # per recorded history
 _MARK = re.compile(rb"<C07-PKT-(\d{8})>")
 
 
@@ -115,23 +125,23 @@ class World:
 
     exceptions = [0, None]       # exceptions raised by the code under test: count, first
 
-    def __init__(self, lib, loop, anon, attached, cand):
+    def __init__(self, lib, loop, insts, attached, cand):
+        """insts: [(label, anonymize)] - the overlay instances built at the start, in this order."""
         self.lib, self.loop = lib, loop
         self.rec = lib.RecordingEndpoint()
         self.tep = lib.TunnelEndpoint(self.rec)
         self.recs = [self.rec] if attached else [self.rec, lib.RecordingEndpoint()]
-        net = lib.Network()
-        self.labels = sorted(anon)
+        self.net = lib.Network()
+        self.labels = sorted({lab for lab, _ in insts})
+        self.inst, self.inst_lab = [], []          # instance i of the model = self.inst[i - 1]
 
         def build():
             tc_ep = self.tep if attached else self.recs[1]
-            self.tc = lib.TunnelCommunity(lib.TunnelSettings(my_peer=lib.me, endpoint=tc_ep, network=net))
-            self.ov = {}
-            for lab in self.labels:
-                self.ov[lab] = lib.apps[lab](lib.CommunitySettings(my_peer=lib.me, endpoint=self.tep, network=net,
-                                                                   anonymize=bool(anon[lab])))
+            self.tc = lib.TunnelCommunity(lib.TunnelSettings(my_peer=lib.me, endpoint=tc_ep, network=self.net))
+            for lab, a in insts:
+                self._construct(lab, a)
         loop.call(build)
-        self.prefix = {lab: self.ov[lab].get_prefix() for lab in self.labels}
+        self.prefix = {lab: self.inst[self.inst_lab.index(lab)].get_prefix() for lab in self.labels}
         self.app_prefixes = set(self.prefix.values())
         self.set_candidates(cand)
         # observation points named by the property: TunnelCommunity.send_data / create_circuit (wrapped, still real)
@@ -157,9 +167,15 @@ class World:
         self._raw_pos = [0 for _ in self.recs]
         self._sd_pos = 0
 
+    def _construct(self, lab, anonymize):
+        lib = self.lib
+        self.inst.append(lib.apps[lab](lib.CommunitySettings(my_peer=lib.me, endpoint=self.tep, network=self.net,
+                                                             anonymize=bool(anonymize))))
+        self.inst_lab.append(lab)
+
     def cleanup(self):
         def cancel():
-            for o in [self.tc, self.tc.request_cache, *self.ov.values()]:
+            for o in [self.tc, self.tc.request_cache, *self.inst]:
                 o.cancel_all_pending_tasks()
         self.loop.call(cancel)
         self.loop.drain()
@@ -184,18 +200,45 @@ class World:
             self.tc.candidates[self.lib.exit_peer] = [self.lib.EXIT_IPV8]
             self.tc.candidates[self.lib.relay_peer] = [self.lib.RELAY]
 
-    def send(self, lab):
+    def send(self, i):
+        """Instance i (loaded or not) sends a packet of its overlay through its endpoint."""
+        lab = self.inst_lab[i - 1]
         self.nsent += 1
         k = self.nsent
         dest = ("10.1.%d.%d" % ((k >> 8) & 255, k & 255), 2000 + (k % 50000))
         pkt = self.prefix[lab] + b"\x42" + marker(k)
         self.pkts[k] = (lab, dest, pkt)
         self.by_bytes[(dest, pkt)] = k
-        self.real(self.ov[lab].endpoint.send, dest, pkt)
+        self.real(self.inst[i - 1].endpoint.send, dest, pkt)
         return k
 
     def set_anon(self, lab, value):
-        self.real(self.ov[lab].endpoint.set_anonymity, self.prefix[lab], value)
+        self.real(self.inst[self.inst_lab.index(lab)].endpoint.set_anonymity, self.prefix[lab], value)
+
+    def load(self, lab, anonymize):
+        """Another real Community instance with the same community id on the same endpoint."""
+        self.loop.call(self._construct, lab, anonymize)
+
+    def unload(self, i):
+        """The real (async) Community.unload() of instance i, run to completion."""
+        ov, loop = self.inst[i - 1], self.loop
+        # only the unload itself and this instance's own tasks run: what the other overlays and the TunnelCommunity
+        # have pending (their periodic tasks were never started in this world) stays where it is
+        own = {id(t) for t in ov._pending_tasks.values()}  # noqa: SLF001
+        foreign = {id(h) for h in loop._ready if id(getattr(h._callback, "__self__", None)) not in own}  # noqa: SLF001
+        fut = loop.call(lambda: asyncio.ensure_future(ov.unload()))
+        for _ in range(100000):
+            h = next((h for h in loop._ready if id(h) not in foreign), None)  # noqa: SLF001
+            if h is None:
+                break
+            loop.run_ready(h)
+        if not fut.done():
+            raise MachineryError("C07: Community.unload() did not finish without the clock moving")
+        if fut.exception() is not None:
+            e = fut.exception()
+            World.exceptions[0] += 1
+            if World.exceptions[1] is None:
+                World.exceptions[1] = "%s in Community.unload: %s" % (type(e).__name__, e)
 
     def attach(self, hops):
         if hops == 1:
@@ -288,9 +331,13 @@ def event_json(act, args, proj):
     return e
 
 
-def trace_header(anon, attached, hops):
-    a = {lab: bool(anon.get(lab, False)) for lab in LABELS}
-    return {"anon": a, "attached": bool(attached), "hops": int(hops)}
+def trace_header(insts, attached, hops):
+    """insts: [(label, asked for anonymity at construction)] in order of construction."""
+    return {"insts": [{"p": lab, "req": bool(a)} for lab, a in insts], "attached": bool(attached), "hops": int(hops)}
+
+
+def insts_of(st):
+    return [(r["p"], r["req"]) for r in st["insts"]]
 
 
 # ---------------------------------------------------------------------------------------------------
@@ -307,7 +354,7 @@ class Replayer:
         """steps: [(name, args, src_state, dst_state)].  True when the real objects stayed on the model.
         After the first difference the remaining actions are still executed (a wrong switch only shows at a later
         send) and the whole observed history goes to the abstract layer."""
-        w = World(self.lib, self.loop, dict(st0["anon"]), st0["attached"], st0["cand"])
+        w = World(self.lib, self.loop, insts_of(st0), st0["attached"], st0["cand"])
         events, labels, ev_label = [], [], []
         first = None
         try:
@@ -332,7 +379,7 @@ class Replayer:
                     if d:
                         first = (list(labels), d)
             if first is not None:
-                tr = trace_header(st0["anon"], st0["attached"], st0["hopsCfg"])
+                tr = trace_header(insts_of(st0), st0["attached"], st0["hopsCfg"])
                 tr["events"] = events
                 self.divergent.append({"trace": tr, "labels": first[0], "all_labels": labels, "diff": first[1],
                                        "tag": tag, "cand": st0["cand"], "ev_label": ev_label})
@@ -346,16 +393,24 @@ class Replayer:
         if name in ("SendAnon", "SendPlain"):
             k = w.send(args[0])
             proj = w.observe()
-            return proj, [event_json("send", {"p": args[0], "pkt": k}, proj)]
+            return proj, [event_json("send", {"i": args[0], "p": w.inst_lab[args[0] - 1], "pkt": k}, proj)]
         if name == "FillQueue":
             evs, outs, proj = [], (), None
             for _ in range(dst["nsent"] - src["nsent"]):
                 k = w.send(args[0])
                 proj = w.observe()
                 outs += proj["out"]
-                evs.append(event_json("send", {"p": args[0], "pkt": k}, proj))
+                evs.append(event_json("send", {"i": args[0], "p": w.inst_lab[args[0] - 1], "pkt": k}, proj))
             proj["out"] = outs
             return proj, evs
+        if name == "Load":
+            w.load(args[0], args[1])
+            proj = w.observe()
+            return proj, [event_json("load", {"p": args[0], "v": bool(args[1])}, proj)]
+        if name == "Unload":
+            w.unload(args[0])
+            proj = w.observe()
+            return proj, [event_json("unload", {"i": args[0]}, proj)]
         if name == "ToggleAnon":
             v = not src["anon"][args[0]]
             w.set_anon(args[0], v)
@@ -387,7 +442,7 @@ def steps_of(g, walk):
     return [(g.edges[ei][1], g.edges[ei][2], g.states[g.edges[ei][0]], g.states[g.edges[ei][3]]) for ei in walk]
 
 
-def replay_graph(ctx, rp, cfgname, tag, paths_depth, cover_ops):
+def dumped_graph(ctx, cfgname, tag, lifecycle=False):
     tmp = scratch_dir("c07-")
     try:
         dot = os.path.join(tmp, "g.dot")
@@ -395,10 +450,60 @@ def replay_graph(ctx, rp, cfgname, tag, paths_depth, cover_ops):
         if not r.ok:
             raise MachineryError("TunnelEndpoint %s: TLC reports %s on the specification itself" % (cfgname, r.violated))
         ctx.add_tlc(tag, r)
-        check_coverage(r, cfgname)
-        g = parse_dot(dot)
+        check_coverage(r, cfgname, lifecycle)
+        return parse_dot(dot)
     finally:
         shutil.rmtree(tmp, ignore_errors=True)
+
+
+def lifecycle_then_send(steps):
+    """A life-cycle event that is followed by a send of an instance with the same prefix: what loading / unloading
+    did to the routing of that overlay becomes observable."""
+    for n, (name, args, src, _dst) in enumerate(steps):
+        if name in LIFECYCLE:
+            p = args[0] if name == "Load" else src["insts"][args[0] - 1]["p"]
+            for name2, args2, src2, _ in steps[n + 1:]:
+                if (name2.startswith("Send") or name2 == "FillQueue") and src2["insts"][args2[0] - 1]["p"] == p:
+                    return True
+    return False
+
+
+def replay_lifecycle(ctx, rp, cfgname, tag, depth, every):
+    """Every path of `depth` events of the life-cycle configuration that contains Load / Unload (the others are the
+    paths of the plain configuration).  quick (every=False): those in which a send of the same overlay follows the
+    life-cycle event (the configuration starts without circuit candidates and, at this depth, without circuits)."""
+    g = cfgname if not isinstance(cfgname, str) else dumped_graph(ctx, cfgname, tag, lifecycle=True)
+    ops0, walks0, div0 = rp.nops, rp.nwalks, len(rp.divergent)
+    npaths, kinds = 0, {}
+    for init, walk in all_paths(g, depth):
+        names = [g.edges[e][1] for e in walk]
+        if not any(n in LIFECYCLE for n in names):
+            continue
+        steps = steps_of(g, walk)
+        if not every and not lifecycle_then_send(steps):
+            continue
+        rp.run_walk(g.states[init], steps, tag + ":paths")
+        ctx.nontrivial((tag, tuple(walk)))
+        npaths += 1
+        key = ">".join(n for n in names if n in LIFECYCLE or n.startswith("Send"))
+        kinds[key] = kinds.get(key, 0) + 1
+        if npaths == 1:
+            ctx.sample({"replayed_lifecycle_walk": ["%s(%s)" % (g.edges[e][1], ",".join(map(str, g.edges[e][2])))
+                                                    for e in walk],
+                        "initial": {k: v for k, v in g.states[init].items() if k in ("insts", "attached", "cand")}})
+        if len(rp.divergent) > div0 + 20:
+            break
+    for need in ("Unload>SendAnon", "Load>Unload>SendAnon", "Load>SendAnon"):
+        if not kinds.get(need) and len(rp.divergent) == div0:
+            raise MachineryError("C07: no replayed life-cycle path of the shape %s" % need)
+    ctx.note("replay_" + tag, {"graph_states": len(g.states), "graph_edges": len(g.edges), "all_paths_depth": depth,
+                               "paths_with_lifecycle_event": npaths, "only_with_later_send": not every,
+                               "real_operations": rp.nops - ops0, "walks": rp.nwalks - walks0,
+                               "shapes": dict(sorted(kinds.items(), key=lambda kv: -kv[1])[:12])})
+
+
+def replay_graph(ctx, rp, cfgname, tag, paths_depth, cover_ops):
+    g = cfgname if not isinstance(cfgname, str) else dumped_graph(ctx, cfgname, tag)
     ops0, walks0, div0 = rp.nops, rp.nwalks, len(rp.divergent)
     covered = set()
     npaths = 0
@@ -430,40 +535,54 @@ def replay_graph(ctx, rp, cfgname, tag, paths_depth, cover_ops):
                                "edges_covered": len(covered), "complete_edge_cover": len(covered) == len(g.edges)})
 
 
-def replay_simulated(ctx, rp, num, depth):
-    """Deep behaviours of the implementation layer (TLC -simulate) executed on the real objects."""
+def simulated_behaviours(seed, num, depth):
+    """Deep behaviours of the implementation layer (TLC -simulate, loading and unloading instances as well)."""
     tmp = scratch_dir("c07s-")
     try:
         base = os.path.join(tmp, "sim")
         r = run_tlc("TunnelEndpoint.tla", "TunnelEndpoint_sim.cfg", simulate="file=%s,num=%d" % (base, num),
-                    depth=depth, seed=ctx.seed + 7, coverage=False, workers=1)
+                    depth=depth, seed=seed + 7, coverage=False, workers=1)
         if r.violated:
             raise MachineryError("TunnelEndpoint_sim: TLC reports %s on the specification itself" % r.violated)
-        files = sorted(f for f in os.listdir(tmp) if f.startswith("sim"))
-        n = 0
-        for f in files:
+        out = []
+        for f in sorted(f for f in os.listdir(tmp) if f.startswith("sim")):
             path = os.path.join(tmp, f)
             with open(path, encoding="utf-8") as fh:
                 text = re.sub(r"\n=+\s*$", "\n", fh.read())      # the module's closing line is not part of a state
             with open(path, "w", encoding="utf-8") as fh:
                 fh.write(text)
             beh = parse_simulate_file(path)
-            if len(beh) < 2:
-                continue
-            steps = [(beh[i][0], beh[i][1], beh[i - 1][2], beh[i][2]) for i in range(1, len(beh))]
-            rp.run_walk(beh[0][2], steps, "simulate")
-            ctx.nontrivial(("sim", tuple((s[0], s[1]) for s in steps)))
-            n += 1
-            if n == 1:
-                ctx.sample({"simulated_behaviour_first_steps": ["%s%s" % (s[0], list(s[1])) for s in steps[:12]]})
+            if len(beh) >= 2:
+                out.append(beh)
+        return out
     finally:
         shutil.rmtree(tmp, ignore_errors=True)
-    ctx.note("replay_simulate", {"behaviours": n, "depth": depth})
 
 
-def check_coverage(r, cfgname):
+def replay_simulated(ctx, rp, behaviours, depth):
+    """... executed on the real objects."""
+    n = 0
+    seen = {}
+    for beh in behaviours:
+        steps = [(beh[i][0], beh[i][1], beh[i - 1][2], beh[i][2]) for i in range(1, len(beh))]
+        rp.run_walk(beh[0][2], steps, "simulate")
+        ctx.nontrivial(("sim", tuple((s[0], s[1]) for s in steps)))
+        for st in steps:
+            seen[st[0]] = seen.get(st[0], 0) + 1
+        n += 1
+        if n == 1:
+            ctx.sample({"simulated_behaviour_first_steps": ["%s%s" % (s[0], list(s[1])) for s in steps[:12]]})
+    missing = [a for a in LIFECYCLE if not seen.get(a)]
+    if missing:
+        raise MachineryError("C07: simulated behaviours never took %s" % missing)
+    ctx.note("replay_simulate", {"behaviours": n, "depth": depth, "actions": seen})
+
+
+def check_coverage(r, cfgname, lifecycle=False):
     need = ["SendAnon", "SendPlain", "FillQueue", "ToggleAnon", "Attach", "Detach", "AddCircuit", "HopAdded",
-            "CircuitClosing", "CircuitRemoved"]
+            "CircuitClosing", "CircuitRemoved"] + (list(LIFECYCLE) if lifecycle else [])
+    if "lc3.cfg" in cfgname:                 # the short life-cycle paths are made without circuits
+        need = [a for a in need if "Circuit" not in a and a != "HopAdded"]
     missing = [a for a in need if r.coverage.get(a, (0, 0))[1] == 0]
     if missing:
         raise MachineryError("TunnelEndpoint %s: actions never taken: %s" % (cfgname, missing))
@@ -472,14 +591,58 @@ def check_coverage(r, cfgname):
 # ---------------------------------------------------------------------------------------------------
 # binding T: random histories of the real objects judged by the abstract layer
 # ---------------------------------------------------------------------------------------------------
+class Asked:
+    """The abstract bookkeeping of TunnelEndpoint.tla (KindOf / ...AfterLoad / ...AfterSet / ...AfterUnload) mirrored in
+    Python - only to name the situation a recorded send was made in (vacuity check) and to pick the event a negative
+    control falsifies.  The verdict on a history is always TLC's."""
+
+    def __init__(self, insts):
+        self.lab = [lab for lab, _ in insts]
+        self.req = [bool(a) for _, a in insts]
+        self.loaded = [True for _ in insts]
+        self.asked = {}
+        for lab, a in insts:
+            self.asked[lab] = self.asked.get(lab, False) or bool(a)
+
+    def load(self, lab, a):
+        self.lab.append(lab)
+        self.req.append(bool(a))
+        self.loaded.append(True)
+        if a:
+            self.asked[lab] = True
+
+    def unload(self, i):
+        self.loaded[i - 1] = False
+
+    def set(self, lab, v):
+        self.asked[lab] = bool(v)
+        self.req = [bool(v) if l == lab else r for l, r in zip(self.lab, self.req)]
+
+    def kind(self, i):
+        return "anon" if self.req[i - 1] else ("open" if self.asked[self.lab[i - 1]] else "plain")
+
+    def lifecycle_situations(self, i):
+        """For a sender that asked: which unloads happened around it."""
+        lab, out = self.lab[i - 1], []
+        if not self.loaded[i - 1]:
+            out.append("anon_sender_unloaded")
+        older = [j for j in range(i - 1) if self.lab[j] == lab and not self.loaded[j]]
+        other = [j for j in range(len(self.lab)) if j != i - 1 and self.lab[j] == lab and not self.loaded[j]]
+        if self.loaded[i - 1] and other:
+            out.append("anon_sibling_unloaded")
+        if self.loaded[i - 1] and older:
+            out.append("anon_replacement_of_unloaded")
+        return out
+
+
 def random_history(lib, loop, rng, length, stats):
-    anon = {lab: rng.random() < 0.6 for lab in LABELS}
+    insts = [(lab, rng.random() < 0.6) for lab in LABELS]
     attached = rng.random() < 0.5
     cand = rng.random() < 0.3
-    w = World(lib, loop, anon, attached, cand)
-    tr = trace_header(anon, attached, 1 if attached else 0)
+    w = World(lib, loop, insts, attached, cand)
+    tr = trace_header(insts, attached, 1 if attached else 0)
     events = []
-    cur_anon = dict(anon)
+    book = Asked(insts)
     hops_pref = rng.choice([1, 1, 2, 3])
     try:
         w.observe()
@@ -497,10 +660,13 @@ def random_history(lib, loop, rng, length, stats):
 
         backlog = [0]     # anonymised sends made while attached without a right ready circuit since the last flush
 
-        def send(lab):
+        def send(i):
             # which situation is this (bookkeeping for the vacuity check only; the verdict is TLC's)
-            if not cur_anon[lab]:
+            kind = book.kind(i)
+            if kind == "plain":
                 sit = "plain"
+            elif kind == "open":
+                sit = "open_shared_prefix"
             elif w.tep.tunnel_community is None:
                 sit = "anon_detached"
             elif right_ready():
@@ -510,8 +676,11 @@ def random_history(lib, loop, rng, length, stats):
                 sit = "anon_no_circuit_backlog_over_capacity" if backlog[0] >= QCAP else "anon_no_circuit"
                 backlog[0] += 1
             stats[sit] += 1
-            k = w.send(lab)
-            proj = log("send", {"p": lab, "pkt": k})
+            if kind == "anon":
+                for extra in book.lifecycle_situations(i):
+                    stats[extra] += 1
+            k = w.send(i)
+            proj = log("send", {"i": i, "p": w.inst_lab[i - 1], "pkt": k})
             stats["tunnel_emissions"] += sum(1 for o in proj["out"] if o["k"] == "tun")
             stats["longest_queue"] = max(stats["longest_queue"], len(proj["queue"]))
             if len(w.tc.circuits) > 6:
@@ -521,35 +690,58 @@ def random_history(lib, loop, rng, length, stats):
                     w.removed(rng.randrange(1, len(w.tc.circuits) + 1))
                 log("env", {})
 
+        def sender():
+            """Any instance ever built: loaded ones, replaced ones, unloaded ones (late senders)."""
+            n = len(w.inst)
+            gone = [i for i in range(1, n + 1) if not book.loaded[i - 1]]
+            if gone and rng.random() < 0.25:
+                return rng.choice(gone)
+            return rng.randrange(1, n + 1)
+
         while len(events) < length:
             x = rng.random()
             ncirc = len(w.tc.circuits)
-            if x < 0.42:
-                send(rng.choice(LABELS))
-            elif x < 0.45:
-                lab = rng.choice(LABELS)
+            if x < 0.39:
+                send(sender())
+            elif x < 0.42:
+                i = sender()
                 for _ in range(rng.choice([5, 20, 70, 120])):
                     if len(events) >= length + 60:
                         break
-                    send(lab)
-            elif x < 0.53:
+                    send(i)
+            elif x < 0.49:
                 lab = rng.choice(LABELS)
                 v = rng.random() < 0.6
                 w.set_anon(lab, v)
-                cur_anon[lab] = v
+                book.set(lab, v)
                 log("setanon", {"p": lab, "v": v})
-            elif x < 0.59:
+            elif x < 0.52:
+                if len(w.inst) < MAX_INSTANCES:
+                    lab = rng.choice(LABELS)
+                    # mostly the configuration the overlay was started with (a reload / a replacement)
+                    a = insts[LABELS.index(lab)][1] if rng.random() < 0.7 else rng.random() < 0.5
+                    w.load(lab, a)
+                    book.load(lab, a)
+                    log("load", {"p": lab, "v": bool(a)})
+            elif x < 0.555:
+                live = [i for i in range(1, len(w.inst) + 1) if book.loaded[i - 1]]
+                if live:
+                    i = rng.choice(live)
+                    w.unload(i)
+                    book.unload(i)
+                    log("unload", {"i": i})
+            elif x < 0.61:
                 h = hops_pref if rng.random() < 0.7 else rng.choice([1, 2, 3])
                 w.attach(h)
                 log("attach", {"h": h})
-            elif x < 0.61:
+            elif x < 0.63:
                 w.detach()
                 log("detach", {})
-            elif x < 0.69:
+            elif x < 0.705:
                 if ncirc < 5:
                     w.add_circuit(hops_pref if rng.random() < 0.7 else rng.choice([1, 2, 3]))
                     log("env", {})
-            elif x < 0.86:
+            elif x < 0.865:
                 cands = [i for i in range(1, ncirc + 1) if len(w.circuit_at(i).hops) < w.circuit_at(i).goal_hops]
                 if cands:
                     w.hop_added(rng.choice(cands), rng.random() < 0.75)
@@ -625,7 +817,7 @@ def judge_divergent(ctx, rp):
                       "real TunnelEndpoint leaves TunnelEndpoint.tla after %s (%s); of the walk %s the abstract "
                       "layer rejects event %s = %s" % (" ".join(bad["labels"]), str(bad["diff"])[:400],
                                                        " ".join(bad["all_labels"]), l, json.dumps(ev)[:600]),
-                      {"initial": bad["trace"]["anon"], "attached": bad["trace"]["attached"], "cand": bad["cand"],
+                      {"insts": bad["trace"]["insts"], "attached": bad["trace"]["attached"], "cand": bad["cand"],
                        "actions": bad["all_labels"], "diff": bad["diff"], "event_index": l, "trace": bad["trace"]})
         # TLC names one rejected trace per run: judge the walks with another signature in the next round
         pending = [d for d in pending if sig_of(d) != sig_of(bad)]
@@ -643,8 +835,33 @@ def judge_divergent(ctx, rp):
               "the property leaves open (first: %s: %s)" % (len(benign), " ".join(b["labels"]), str(b["diff"])[:300]))
 
 
+def corrupt_after_unload(trace, what):
+    """A copy of a recorded history cut after the first send of an instance that asked for anonymity and was unloaded
+    itself (what = "sender") / is the live replacement of an unloaded instance (what = "replacement"), that packet
+    reported on the raw socket: the history the code would record if unloading took the request back."""
+    t = json.loads(json.dumps(trace))
+    book = Asked([(r["p"], r["req"]) for r in t["insts"]])
+    for n, e in enumerate(t["events"]):
+        if e["a"] == "load":
+            book.load(e["p"], e["v"])
+        elif e["a"] == "unload":
+            book.unload(e["i"])
+        elif e["a"] == "setanon":
+            book.set(e["p"], e["v"])
+        elif e["a"] == "send" and book.kind(e["i"]) == "anon" and \
+                ("anon_sender_unloaded" if what == "sender" else "anon_replacement_of_unloaded") in \
+                book.lifecycle_situations(e["i"]):
+            e["out"] = [{"k": "raw", "pkt": e["pkt"], "cid": 0}]
+            e["queue"] = [q for q in e["queue"] if q != e["pkt"]]
+            t["events"] = t["events"][:n + 1]
+            return t
+    return None
+
+
 def corrupt(trace, how):
     """A copy of a recorded history with one observation falsified (negative controls of the trace binding)."""
+    if how.startswith("unload-"):
+        return corrupt_after_unload(trace, how[7:])
     t = json.loads(json.dumps(trace))
     for i, e in enumerate(t["events"]):
         tun = [o for o in e["out"] if o["k"] == "tun"]
@@ -674,11 +891,16 @@ def run_replay_file(ctx, lib, loop, path):
         # a recorded history (binding T): judge the stored observations again is pointless - re-run is seeded
         raise MachineryError("C07: this replay file holds a recorded random history; re-run the tier with seed %s"
                              % rep.get("seed", "of the file"))
-    anon = {k: v for k, v in rep["initial"].items() if k in ("A", "B")}
-    w = World(lib, loop, anon, rep["attached"], rep["cand"])
+    if "insts" in rep:
+        insts = [(r["p"], r["req"]) for r in rep["insts"]]
+    else:                                    # files written before instances were modelled: one instance per prefix
+        insts = sorted((k, v) for k, v in rep["initial"].items() if k in ("A", "B"))
+    w = World(lib, loop, insts, rep["attached"], rep["cand"])
     rp = Replayer(ctx, lib, loop)
     events = []
-    cur = dict(anon)
+    cur = {}                                 # the model's switch: ToggleAnon(p) calls set_anonymity(p, not cur[p])
+    for lab, a in insts:
+        cur[lab] = cur.get(lab, False) or bool(a)
     try:
         w.observe()
         for lab in rep["actions"]:
@@ -686,16 +908,19 @@ def run_replay_file(ctx, lib, loop, path):
             name = m.group(1)
             args = [x for x in m.group(2).split(",") if x != ""]
             args = [int(x) if x.isdigit() else (x == "True") if x in ("True", "False") else x for x in args]
-            src = {"anon": cur, "nsent": w.nsent}
+            if name in ("SendAnon", "SendPlain", "FillQueue") and isinstance(args[0], str):
+                args[0] = w.inst_lab.index(args[0]) + 1           # old files name the sender by its prefix
+            src = {"anon": dict(cur), "nsent": w.nsent}
             dst = {"nsent": w.nsent + max(0, QCAP - 1 - len(w.tep.send_queue))}
             _proj, evs = rp.apply(w, name, args, src, dst)
             if name == "ToggleAnon":
-                cur = dict(cur)
                 cur[args[0]] = not cur[args[0]]
+            elif name == "Load" and args[1]:
+                cur[args[0]] = True
             events.extend(evs)
     finally:
         w.cleanup()
-    tr = trace_header(anon, rep["attached"], 1 if rep["attached"] else 0)
+    tr = trace_header(insts, rep["attached"], 1 if rep["attached"] else 0)
     tr["events"] = events
     ok, _tid, l = validate_traces(ctx, [tr], "replay")
     ctx.evaluated(len(events))
@@ -717,7 +942,9 @@ def run(tier, seed, replay=None):
     loop = install(StepLoop())
     lib = Lib()
     ctx.cov["rule"] = ("TLC enumerates every interleaving of 7 events (send by either overlay, toggle, attach/detach, "
-                       "circuit added/hop added/closing/removed, queue fill) from every initial configuration; graph "
+                       "circuit added/hop added/closing/removed, queue fill) from every initial configuration, and "
+                       "every interleaving of 5 (thorough 6) events that also load further overlay instances, unload "
+                       "instances and let loaded, replaced and unloaded instances send; graph "
                        "walks and simulated deep behaviours are executed on the real TunnelEndpoint/Community/"
                        "TunnelCommunity/Circuit objects and compared after every action; random real histories are "
                        "judged by the abstract layer. non-trivial = distinct replayed walks and distinct recorded "
@@ -737,60 +964,74 @@ def run(tier, seed, replay=None):
         phases[name] = {"wall_s": round(now[0] - t_prev[0], 1), "python_cpu_s": round(now[1] - t_prev[1], 1)}
         t_prev[:] = now
 
-    # spec-level negative controls
-    r = run_tlc("TunnelEndpoint.tla", "TunnelEndpoint_leak.cfg", coverage=False)
-    ctx.control("spec that falls back to the raw socket without tunnel community violates NoRawForAnon",
-                r.violated == "NoRawForAnon")
-    r = run_tlc("TunnelEndpoint.tla", "TunnelEndpoint_anystate.cfg", coverage=False)
-    ctx.control("spec that ignores the circuit state violates TunnelledOnlyOverReadyRightCircuit",
-                r.violated == "TunnelledOnlyOverReadyRightCircuit")
+    # spec-level negative controls and the exhaustive runs are TLC processes: they overlap with the replays
+    pool = concurrent.futures.ThreadPoolExecutor(8)
+    spec_controls = [
+        ("spec that falls back to the raw socket without tunnel community violates NoRawForAnon",
+         "TunnelEndpoint_leak.cfg", lambda r: r.violated == "NoRawForAnon"),
+        ("spec that ignores the circuit state violates TunnelledOnlyOverReadyRightCircuit",
+         "TunnelEndpoint_anystate.cfg", lambda r: r.violated == "TunnelledOnlyOverReadyRightCircuit"),
+        ("spec in which unloading an overlay instance switches anonymity of its prefix off violates NoRawForAnon",
+         "TunnelEndpoint_unloadclears.cfg", lambda r: r.violated == "NoRawForAnon")]
     if tier != "quick":
-        r = run_tlc("TunnelEndpoint.tla", "TunnelEndpoint_anystate_abs.cfg", coverage=False)
-        ctx.control("spec that ignores the circuit state does not refine the abstract layer",
-                    r.violated is not None and r.violated != "deadlock")
-
-    phase("spec_controls")
-    rp = Replayer(ctx, lib, loop)
+        spec_controls += [
+            ("spec that ignores the circuit state does not refine the abstract layer",
+             "TunnelEndpoint_anystate_abs.cfg", lambda r: r.violated is not None and r.violated != "deadlock"),
+            ("spec in which unloading switches anonymity off does not refine the abstract layer",
+             "TunnelEndpoint_unloadclears_abs.cfg", lambda r: r.violated is not None and r.violated != "deadlock")]
     only_t = os.environ.get("C07_ONLY_HISTORIES") == "1"     # self-test switch: binding T on its own
+    ctl_futs = []
+
+    def start_controls():
+        ctl_futs.extend((text, pool.submit(run_tlc, "TunnelEndpoint.tla", cfg, coverage=False, workers=2), pred)
+                        for text, cfg, pred in spec_controls)
+
+    def tlc_bg(cfg, **k):
+        return pool.submit(run_tlc, "TunnelEndpoint.tla", cfg, **k)
+
+    rp = Replayer(ctx, lib, loop)
+    exhaustive = {}          # tag -> pending exhaustive TLC run; collected after everything else was done
     if only_t:
-        r7 = run_tlc("TunnelEndpoint.tla", "TunnelEndpoint_d4.cfg")
-        ntr, tlen, controls = 40, 200, ("raw", "closing")
+        exhaustive["exhaustive"] = tlc_bg("TunnelEndpoint_d4.cfg")
+        start_controls()
+        ntr, tlen, controls = 40, 200, ("raw", "closing", "unload-sender", "unload-replacement")
     elif tier == "quick":
-        # the exhaustive run (16 workers) overlaps with the single-threaded replays
-        pool = concurrent.futures.ThreadPoolExecutor(1)
-        fut7 = pool.submit(run_tlc, "TunnelEndpoint.tla", "TunnelEndpoint_d7.cfg")
-        replay_graph(ctx, rp, "TunnelEndpoint_d3.cfg", "d3", 3, 0)          # every path of 3 events
-        phase("replay_paths")
-        replay_graph(ctx, rp, "TunnelEndpoint_d4.cfg", "d4", 0, 10000)      # seeded part of the transition cover
-        phase("replay_cover")
-        replay_simulated(ctx, rp, 300, 50)
+        exhaustive["exhaustive"] = tlc_bg("TunnelEndpoint_d7.cfg")
+        g4 = dumped_graph(ctx, "TunnelEndpoint_d4.cfg", "d4")      # the replays wait for this one only
+        exhaustive["exhaustive_lifecycle"] = tlc_bg("TunnelEndpoint_lc5.cfg")
+        glc = pool.submit(dumped_graph, ctx, "TunnelEndpoint_lc3.cfg", "lc3", True)
+        sim = pool.submit(simulated_behaviours, ctx.seed, 250, 50)
+        start_controls()
+        # every path of 3 events, then the seeded part of the transition cover of 4 events (same dumped graph)
+        replay_graph(ctx, rp, g4, "d4", 3, 10000)
+        phase("replay_paths_and_cover")
+        replay_lifecycle(ctx, rp, glc.result(), "lc3", 3, every=False)
+        phase("replay_lifecycle")
+        replay_simulated(ctx, rp, sim.result(), 50)
         phase("replay_simulated")
-        r7 = fut7.result()
-        pool.shutdown()
-        phase("tlc_exhaustive_wait")
         ntr, tlen = 40, 200
-        controls = ("raw", "closing")
+        controls = ("raw", "closing", "unload-sender", "unload-replacement")
     else:
-        r7 = run_tlc("TunnelEndpoint.tla", "TunnelEndpoint_d8.cfg", timeout=7200)
-        phase("tlc_exhaustive")
+        exhaustive["exhaustive"] = tlc_bg("TunnelEndpoint_d8.cfg", timeout=7200)
+        exhaustive["exhaustive_lifecycle"] = tlc_bg("TunnelEndpoint_lc6.cfg", timeout=7200)
+        sim = pool.submit(simulated_behaviours, ctx.seed, 5000, 80)
+        start_controls()
         replay_graph(ctx, rp, "TunnelEndpoint_d4.cfg", "d4", 4, 0)          # every path of 4 events
         phase("replay_paths")
         replay_graph(ctx, rp, "TunnelEndpoint_d5.cfg", "d5", 0, None)       # complete transition cover, 5 events
         phase("replay_cover")
-        replay_simulated(ctx, rp, 5000, 80)
+        replay_lifecycle(ctx, rp, "TunnelEndpoint_lc3t.cfg", "lc3", 3, every=True)
+        phase("replay_lifecycle")
+        replay_simulated(ctx, rp, sim.result(), 80)
         phase("replay_simulated")
         ntr, tlen = 300, 200
-        controls = ("raw", "wrong-circuit", "closing", "still-queued")
-    ctx.add_tlc("exhaustive", r7)
-    if not r7.ok:
-        raise MachineryError("TunnelEndpoint: TLC reports %s on the specification itself" % r7.violated)
-    check_coverage(r7, "exhaustive")
-    ctx.cov["exhaustive"] = True
+        controls = ("raw", "wrong-circuit", "closing", "still-queued", "unload-sender", "unload-replacement")
     ctx.evaluated(rp.nops)
     ctx.traces(rp.nwalks)
     ctx.note("replay_actions_executed", rp.seen_actions)
     if rp.divergent:
         judge_divergent(ctx, rp)
+        phase("judge_divergent_walks")
 
     if not ctx.violations:
         stats = dict.fromkeys(SITUATIONS + ["tunnel_emissions", "longest_queue"], 0)
@@ -815,20 +1056,39 @@ def run(tier, seed, replay=None):
             for t in traces:
                 ctx.nontrivial(("trace", json.dumps(t["events"][:60], sort_keys=True)))
             first = traces[0]
-            ctx.sample({"recorded_history": {"anon": first["anon"], "attached": first["attached"],
+            ctx.sample({"recorded_history": {"insts": first["insts"], "attached": first["attached"],
                                              "first_events": first["events"][:4]}})
             # trace-level negative controls
-            texts = {"raw": "history reporting an anonymised packet on the raw socket is rejected",
+            texts = {"unload-sender": "history in which an unloaded overlay that asked for anonymity sends from the "
+                                      "raw socket is rejected",
+                     "unload-replacement": "history in which the live replacement of an unloaded anonymised overlay "
+                                           "sends from the raw socket is rejected",
+                     "raw": "history reporting an anonymised packet on the raw socket is rejected",
                      "wrong-circuit": "history reporting tunnel data over an unknown circuit is rejected",
                      "closing": "history reporting tunnel data over a closing circuit is rejected",
                      "still-queued": "history reporting a packet both sent and still queued is rejected"}
+            bads = []
             for how in controls:
-                text = texts[how]
                 bad = next((c for c in (corrupt(t, how) for t in traces) if c), None)
                 if bad is None:
-                    raise MachineryError("C07: no recorded history with tunnel data to corrupt")
-                ctx.control(text, validate_traces(ctx, [bad], None, True)[0])
+                    raise MachineryError("C07: no recorded history to corrupt for control %r" % how)
+                bads.append(bad)
+            verdicts = list(pool.map(lambda b: validate_traces(ctx, [b], None, True)[0], bads))
+            for how, v in zip(controls, verdicts):
+                ctx.control(texts[how], v)
     phase("recorded_histories")
+    # the model-checking runs that went on beside all of the above
+    for text, fut, pred in ctl_futs:
+        ctx.control(text, pred(fut.result()))
+    for tag, fut in exhaustive.items():
+        r = fut.result()
+        ctx.add_tlc(tag, r)
+        if not r.ok:
+            raise MachineryError("TunnelEndpoint (%s): TLC reports %s on the specification itself" % (tag, r.violated))
+        check_coverage(r, tag, lifecycle=tag.endswith("lifecycle"))
+    ctx.cov["exhaustive"] = True
+    pool.shutdown()
+    phase("tlc_exhaustive_wait")
     ctx.note("phases", phases)
     if World.exceptions[0]:
         ctx.note("exceptions_raised_by_the_code", {"count": World.exceptions[0], "first": World.exceptions[1]})
